@@ -44,6 +44,18 @@
             Expr::Asm(s, ast) => SExpr::Asm(s, ast),
         }
     }
+    pub proof fn lemma_views_push(v: Seq<Expr>, e: Expr)
+        ensures views(v.push(e)) =~= views(v).push(view_of(e))
+    {
+    }
+    /// R16 helpers (ASSUMED): `str::to_string` copies the text; excerpt_as_bigint with a report (see the rule's note)
+    #[verifier::external_body]
+    pub fn verif_to_string(s: &str) -> (r: String) ensures r@ == s@ { unimplemented!() }
+    #[verifier::external_body]
+    pub fn verif_excerpt_as_bigint_loud(report: &mut diagn::Report, span: Span, excerpt: &str) -> (res: Result<util::BigInt, ()>)
+        ensures
+            (match res { Ok(v) => number_of(span, excerpt@) == Some(v) && *final(report) == *old(report), Err(_) => number_of(span, excerpt@) is None && final(report).msgs() > old(report).msgs() }),
+    { unimplemented!() }
     /// spans: the smallest span covering both (diagn::Span::join; uninterpreted), and the dummy span
     pub uninterp spec fn join(a: Span, b: Span) -> Span;
     pub uninterp spec fn dummy() -> Span;
@@ -73,7 +85,7 @@
     pub open spec fn is_bin_table(t: Seq<(TokenKind, BinaryOp)>) -> bool { exists|k: int| 0 <= k < 10 && #[trigger] bin_table(k) == t }
     pub open spec fn level_of(t: Seq<(TokenKind, BinaryOp)>) -> int { choose|k: int| 0 <= k < 10 && #[trigger] bin_table(k) == t }
     /// two operator tables (of at most six entries) are the same, entry by entry
-    pub open spec fn same_table(a: Seq<(TokenKind, BinaryOp)>, b: Seq<(TokenKind, BinaryOp)>) -> bool {
+    pub open spec fn same_table<O>(a: Seq<(TokenKind, O)>, b: Seq<(TokenKind, O)>) -> bool {
         a.len() == b.len() && a.len() <= 6
         && (a.len() > 0 ==> a[0] == b[0]) && (a.len() > 1 ==> a[1] == b[1]) && (a.len() > 2 ==> a[2] == b[2])
         && (a.len() > 3 ==> a[3] == b[3]) && (a.len() > 4 ==> a[4] == b[4]) && (a.len() > 5 ==> a[5] == b[5])
